@@ -99,6 +99,7 @@ class Rec:
     def __init__(self, ctx, collect=False):
         self.ctx, self.collect, self.records = ctx, collect, []
         self.seen = set()
+        self.sampled = {}
         self.per_file = {}
 
     def cmp(self, file, kind, name, ok, binding, c, where="", counter=None):
@@ -115,8 +116,11 @@ class Rec:
         if not ok:
             self.ctx.violation("%s|%s|%s" % (file, kind, name), "%s %s: binding %s; C %s" % (where, name, binding, c),
                                dict(file=file, kind=kind, name=name))
-        elif kind == "constant-value" and isinstance(c, float):
-            self.ctx.sample(dict(file=file, name=name, binding=binding, c=c), cap=6)
+        elif kind in ("constant-value", "function-argtype", "not-exported", "version"):
+            n = self.sampled.get((file, kind), 0)
+            if n < 1 and len(self.ctx.cov["samples"]) < 12 and not str(name).endswith(("_AUGER", "_LINE", "_SHELL")):
+                self.sampled[(file, kind)] = n + 1
+                self.ctx.sample(dict(file=file, kind=kind, name=name, binding=str(binding)[:160], c=str(c)[:160]))
         return ok
 
 
@@ -504,7 +508,7 @@ def run(ctx, B, collect=False):
               "%d parameters: %s" % (len(p["args"]), sigstr(*ref.csig(p))), where)
     # hand-written wrappers: name of the wrapper vs the C function it forwards to; signature when the C function is scalar
     ws = sorted(C["wrappers"], key=lambda w: w["line"])
-    nw, resh = 0, []
+    nw, resh, forwarders = 0, [], {}
     for i, w in enumerate(ws):
         if w["name"].startswith("_"):
             continue
@@ -514,7 +518,8 @@ def run(ctx, B, collect=False):
             continue
         target = inner[0]["name"]
         where = "%s:%d" % (cp, w["line"])
-        R.cmp(cp, "function-name", target, w["name"] in (target, re.sub(r"^Crystal_", "", target)), "wrapper is called %s" % w["name"], "it forwards to the C function %s" % target, where, "c++ wrappers")
+        fw = forwarders.setdefault(target, [])
+        fw.append((w["name"], w["line"]))
         p = allproto.get(target)
         if p is None or w["args"] is None:
             continue
@@ -522,6 +527,11 @@ def run(ctx, B, collect=False):
             resh.append(w["name"]); continue
         nw += 1
         compare_function(R, ref, dict(w), p, True, "c++ wrappers")
+    # a C function that hand-written wrappers forward to must be reachable under its C name (namespace Crystal:: replaces the Crystal_ prefix)
+    for target, fw in sorted(forwarders.items()):
+        good = [n for n, ln in fw if n in (target, re.sub(r"^Crystal_", "", target))]
+        R.cmp(cp, "function-name", target, bool(good), "wrappers forwarding to ::%s are called %s" % (target, ["%s (line %d)" % x for x in fw]),
+              "C name %s" % target, "%s:%d" % (cp, fw[0][1]), "c++ wrappers")
     notes["functions_compared"]["c++ _XRL_FUNCTION list"] = nl
     notes["functions_compared"]["c++ explicit calls"] = ncall
     notes["functions_compared"]["c++ wrappers"] = nw
